@@ -102,6 +102,8 @@ register(PropertySpec(
         Rule("NO-YIELD-UNDER-MODE", modes.rule_no_yield_under_mode, 20,
              "no generator other than the context managers themselves suspends (yield) inside a with "
              "symbolic_mode/rule_mode region"),
+        Rule("MODE-SET-REQUESTED", modes.rule_mode_set_requested, 9,
+             "symbolic_mode(mode=M) sets exactly M for every ambient mode"),
         Rule("OP-GUARD", modes.rule_op_guard, 10,
              "abstract interpretation of each of the 10 operator hooks with in_symbolic_mode() == False: no return is "
              "reachable (the hook raises), through helper calls too"),
@@ -125,6 +127,9 @@ register(PropertySpec(
         Rule("MODE-OFF-DOM", modes.rule_mode_off_dom, 2,
              "every program point of a public evaluate() that runs evaluation (calls a plain evaluator, or advances an "
              "evaluation generator) lies inside `with symbolic_mode(mode=None)`"),
+        Rule("MODE-SET-REQUESTED", modes.rule_mode_set_requested, 9,
+             "abstract interpretation of symbolic_mode for every (requested mode, ambient mode): the mode that is set is "
+             "the requested one - mode=None switches symbolic mode off inside rule/query blocks too"),
         Rule("USERCODE-REACH", modes.rule_usercode_reach, 6,
              "the sites that run user code (predicate call, self._type_(**…), getattr/[]/() on user values, the "
              "comparison operator) are reachable only through the evaluation protocol, hence only under the entries"),
@@ -157,6 +162,12 @@ register(PropertySpec(
              "of the abandoned producer; next()-consumers are a frozen table of exceptions with reasons"),
         Rule("NO-DOMAIN-MUTATION", history.rule_no_domain_mutation, 3,
              "no mutating operation is applied to a value that is the user's domain object"),
+        Rule("NO-USER-VALUE-MUTATION", history.rule_no_user_value_mutation, 5,
+             "no value taken out of a binding (a user object or attribute value) is mutated in place, directly or through "
+             "a local container slot that aliases it"),
+        Rule("MEMO-ON-PULL", _lazy("lazy", "rule_memo_on_pull"), 3,
+             "(shared with C07) an element pulled from a lazily consumed domain is memoised before it is handed out, so "
+             "an evaluation abandoned at that element does not lose it for later evaluations"),
     ],
     explanation="History independence is absence of residue on the shared expression nodes. Decided: where residue is "
                 "written (discovered mechanically from dataclass fields and mutation sites reachable from evaluation "
@@ -182,6 +193,12 @@ register(PropertySpec(
         Rule("RESET-ALL-EXITS", reset.rule_reset_all_exits_the, 1,
              "The.evaluate resets the per-evaluation state on every exit, including both exceptions it is specified to "
              "raise: the outcome is the same on re-evaluation"),
+        Rule("COVERAGE-AFTER-COMPLETION", history.rule_coverage_the_only, 1,
+             "(shared with C04) The.evaluate rolls the result caches back when it raises: `the` stops at the second "
+             "solution, so the caches of its conditions are incomplete whenever MultipleSolutionFound is raised"),
+        Rule("MEMO-ON-PULL", _lazy("lazy", "rule_memo_on_pull"), 3,
+             "(shared with C07) `the` abandons the domain at the second solution; the element it stopped on must already be "
+             "memoised or re-evaluation sees a smaller domain"),
         Rule("PROJECTION-SHARED", the_rules.rule_projection_shared, 3,
              "The.evaluate and An.evaluate turn the evaluated binding into the user value through the same "
              "_process_result_ implementation"),
@@ -246,6 +263,8 @@ register(PropertySpec(
         Rule("SLOT-ALIGN", predform.rule_slot_align, 5,
              "abstract run of update_domain_and_kwargs_from_args over positional lists with and without a leading "
              "From(...): the k-th field value is bound to __init__ parameter k+1 (self = 0), the From slot not counted"),
+        Rule("CLS-ARGS-SIGNATURE", predform.rule_cls_args_signature, 1,
+             "the name list positional values are bound against is inspect.signature(cls.__init__).parameters on every path"),
         Rule("DECL-FILTER", predform.rule_decl_filter, 4,
              "the supplied domain is wrapped in a filter isinstance(v, <runtime class parameter>), the Variable is built "
              "for that class over the filtered domain, and the runtime class (not the closure's decorated class) is "
@@ -302,6 +321,9 @@ register(PropertySpec(
              "_is_false_ between the cache write and the yield)"),
         Rule("INSERT-RETRIEVABLE", cacheidx.rule_insert_retrievable, 2,
              "(shared with C20) what the operators store is stored where cache hits read"),
+        Rule("COVERAGE-AFTER-COMPLETION", history.rule_coverage_after_completion, 6,
+             "(shared with C04) coverage recorded before completion is rolled back on every abnormal exit of a public "
+             "entry: otherwise an abandoned evaluation makes cached and uncached results differ for ever"),
         Rule("CACHE-SWITCH", cacheidx.rule_cache_switch, 6,
              "every result-cache read in an evaluation generator is reachable only when is_caching_enabled() holds "
              "(truth table of its guards), given that writes are suppressed when caching is disabled"),
@@ -330,6 +352,12 @@ register(PropertySpec(
              "the registry key is the runtime class argument of __new__ (reported by REG-MUST's scan of the insert)"),
         Rule("REG-LOOKUP", registry.rule_reg_lookup, 2,
              "lookup selects stores by issubclass(stored, requested) and yields from all of them"),
+        Rule("REG-READ-MODE", registry.rule_reg_read_mode, 2,
+             "writer/reader agreement on the registry store: every Variable built for a @symbol class reads in the mode "
+             "index_class_cache(cls) the writer stores in"),
+        Rule("MEMO-ON-PULL", _lazy("lazy", "rule_memo_on_pull"), 3,
+             "(shared with C07) the registry is consumed through a memoising iterable: an instance pulled while an "
+             "evaluation is abandoned must already be stored or later evaluations of the query miss it"),
         Rule("REG-BRANCH", registry.rule_reg_branch, 2,
              "call-graph closure of the symbolic arm reaches neither the writer nor the allocator; it returns only "
              "expression objects"),
@@ -355,6 +383,9 @@ register(PropertySpec(
              "(EMPTY / SEED / SUBSET-by-membership-in-current / OTHER) and a {first, later} iteration counter: reset at "
              "entry, first value seeds, later values intersect, nothing skipped, empty value empties, early exit only "
              "when empty, the accumulated set is what is yielded"),
+        Rule("INTERNAL-ABANDON", history.rule_internal_abandon, 1,
+             "(shared with C04/C05) the early exits of the loop over universal values invalidate the result caches of the "
+             "universal expression: otherwise a later for_all sees only a cached prefix of the universal domain"),
         Rule("FORALL-KEY", forall.rule_forall_key, 1,
              "the duplicate-suppression key ForAll requires from its condition contains the universal variable"),
         Rule("FORALL-NONLITERAL", forall.rule_forall_nonliteral, 1,
@@ -410,6 +441,11 @@ register(PropertySpec(
         Rule("BIND-KEEP", binding.rule_bind_keep, 12,
              "in every loop over an evaluation stream that hands rows on, the whole binding of the loop variable flows "
              "into each row (copy/update/itself), never only a projection of it"),
+        Rule("DEDUP-KEY", binding.rule_dedup_key, 3,
+             "every implementation of the duplicate-suppression key on a binary operator keys the rows of its left child "
+             "by the right operand's variables"),
+        Rule("CACHE-FLAG-CONSISTENT", _lazy("cacheidx", "rule_cache_flag_consistent"), 5,
+             "(shared with C05) a cached row is replayed with its own truth flag"),
         Rule("PRODUCT", binding.rule_product, 1,
              "the combinator completing unbound selected variables is of class all-combinations (itertools.product / "
              "recursive nested iteration), not lock-step (zip, islice, lone next)"),
